@@ -212,8 +212,17 @@ func (e *Engine) VerifyFunction(fn *ssa.Function) (ctx *FnCtx, err error) {
 		ctx.inputDoc = append(ctx.inputDoc, paramName(p, i))
 	}
 	ctx.nilObjectFacts(st)
-	// package invariant
-	ctx.assumePkgInv(st)
+	// package invariant (not for the package initialiser, which establishes it)
+	if fn.Name() == "init" && fn.Signature.Recv() == nil && len(fn.Params) == 0 && fn.Synthetic != "" {
+		// before the initialiser runs every package variable holds its zero value
+		for _, m := range fn.Pkg.Members {
+			if g, ok := m.(*ssa.Global); ok {
+				st.cells[e.globalCell(g)] = e.tc.Zero(g.Type().(*types.Pointer).Elem())
+			}
+		}
+	} else {
+		ctx.assumePkgInv(st)
+	}
 	// olds and requires
 	if fr.fc != nil {
 		for _, o := range fr.fc.Olds {
@@ -580,6 +589,7 @@ func (c *FnCtx) enterLoop(fr *Frame, h *ssa.BasicBlock, ord int, st *State) *Sta
 	fr.rets = fr.rets[:savedRets]
 	c.noObl--
 	c.facts = c.facts[:nf]
+	c.triggers = c.triggers[:nf]
 	c.writeLog = savedLog
 	// 3. havoc
 	out := st.clone()
